@@ -12,13 +12,18 @@ World scenarios (registry + weak sets + activations; C02, C04)
                                          a sequence of any length (split over the agents iff k = n)
   setagents m                            model.agents = […]  (rejected: err Attr)
   remove a | removeall m | unhold a
+  register a | deregister a              model.register_agent(a) / model.deregister_agent(a) called directly by the program
+                                         (deregister of an agent that is not registered: err Key)
   shuffle <tgt> | sort <tgt> asc|desc    in place
   mkset m a b c …                        AgentSet([...], random=model_m.random)
-  script a <act> ; <act> …               act: rmself | rm b | create m ty n h | unhold b
+  script a <act> ; <act> …               act: rmself | rm b | create m ty n h | unhold b | add k b | discard k b | raise
+                                         (add / discard edit program-made set k; `raise`: the callback raises there,
+                                         what follows it never runs)
   do|shuffledo|map <tgt> <arg> str|fn
   gdo|gmap <tgt> ty|mod2|mod3 <arg> str|fn
   <tgt> = all:m | type:m:ty | set:k
-Every answer is `ok <result> || <dump of all registries, sets and live agents>`.
+Every answer is `ok <result> || <dump of all registries, sets and live agents>`; an activation that a callback's
+exception left answers `ok log=… raised || …` (no `res=`).
 
 AgentSet scenarios (C03): see `asetLine`.  Besides the methods `AgentSet` defines itself, the inherited mixin methods:
   setop or|and|sub|xor|rsub s <other>    a | b, a & b, a - b, a ^ b, [..] - a   (new set)
@@ -57,11 +62,18 @@ def parseAction : List String → Option Action
   | ["rm", b] => do pure (.rm (← b.toNat?))
   | ["create", m, ty, n, h] => do pure (.create (← m.toNat?) (← ty.toNat?) (← n.toNat?) (← parseBool h))
   | ["unhold", b] => do pure (.unhold (← b.toNat?))
+  | ["add", k, b] => do pure (.addTo (← k.toNat?) (← b.toNat?))
+  | ["discard", k, b] => do pure (.discardFrom (← k.toNat?) (← b.toNat?))
   | _ => none
 
-def parseScript (rest : List String) : Option (List Action) :=
+/-- the actions in front of the first `raise`, and whether there is one -/
+def parseScript (rest : List String) : Option (List Action × Bool) :=
   let parts := ((String.intercalate " " rest).splitOn ";").map words |>.filter (· ≠ [])
-  parts.mapM parseAction
+  let before := parts.takeWhile (· ≠ ["raise"])
+  -- what follows a `raise` is dead code, but must still be well formed
+  match before.mapM parseAction, ((parts.drop before.length).filter (· ≠ ["raise"])).mapM parseAction with
+  | some acts, some _ => some (acts, before.length < parts.length)
+  | _, _ => none
 
 def dumpReg (w : World) (m : Nat) (r : Reg) : String :=
   let a := ",".intercalate ((members w (.all m)).map fun a => s!"{a}:{uidOf w a}")
@@ -95,9 +107,10 @@ def fmtLog (l : List (Aid × Nat)) : String := ",".intercalate (l.map fun (a, x)
 
 structure WSt where
   w : World
-  scripts : List (Aid × List Action)
+  scripts : List (Aid × List Action × Bool)
 
-def WSt.script (st : WSt) (a : Aid) : List Action := (st.scripts.lookup a).getD []
+def WSt.script (st : WSt) (a : Aid) : List Action := ((st.scripts.lookup a).map (·.1)).getD []
+def WSt.raises (st : WSt) (a : Aid) : Bool := ((st.scripts.lookup a).map (·.2)).getD false
 
 def retFn (a : Aid) (arg : Nat) : Nat := a * 100 + arg
 
@@ -148,6 +161,21 @@ def worldLine (st : WSt) (ws : List String) : WSt × String :=
     match a.toNat? with
     | some a => let w' := removeAgent w a; ({ st with w := w' }, okW w' "")   -- unknown agent: nothing to call
     | none => bad
+  | ["register", a] =>
+    match a.toNat? with
+    | some a =>
+      let w' := if alive w a then registerAgain w a else w   -- a dead agent cannot be handed to the call
+      ({ st with w := w' }, okW w' "")
+    | none => bad
+  | ["deregister", a] =>
+    match a.toNat? with
+    | some a =>
+      if alive w a then
+        match deregisterDirect w a with
+        | some w' => ({ st with w := w' }, okW w' "")
+        | none => (st, "err Key")
+      else (st, okW w "")
+    | none => bad
   | ["removeall", m] =>
     match m.toNat? with
     | some m => if m < w.regs.length then let w' := removeAll w m; ({ st with w := w' }, okW w' "") else bad
@@ -187,15 +215,18 @@ def worldLine (st : WSt) (ws : List String) : WSt × String :=
       | some e => (st, e)
       | none =>
         let n0 := w.log.length
+        let fin := fun (w' : World) (raised : Bool) =>
+          ({ st with w := w' }, okW w' (s!"log={fmtLog (w'.log.drop n0)}" ++ (if raised then " raised" else "")))
         if op = "do" then
-          let w' := doSet st.script arg w t
-          ({ st with w := w' }, okW w' s!"log={fmtLog (w'.log.drop n0)}")
+          let (w', r) := doSetX st.script st.raises arg w t
+          fin w' r
         else if op = "shuffledo" then
-          let w' := shuffleDo st.script arg w t
-          ({ st with w := w' }, okW w' s!"log={fmtLog (w'.log.drop n0)}")
+          let (w', r) := shuffleDoX st.script st.raises arg w t
+          fin w' r
         else if op = "map" then
-          let (w', rs) := mapSet st.script arg retFn w t
-          ({ st with w := w' }, okW w' s!"log={fmtLog (w'.log.drop n0)} res={joinNat "," rs}")
+          match mapSetX st.script st.raises arg retFn w t with
+          | (w', none) => fin w' true
+          | (w', some rs) => ({ st with w := w' }, okW w' s!"log={fmtLog (w'.log.drop n0)} res={joinNat "," rs}")
         else bad
     | _, _ => bad
   | [op, t, key, arg, how] =>
@@ -207,12 +238,14 @@ def worldLine (st : WSt) (ws : List String) : WSt × String :=
       | none =>
         let n0 := w.log.length
         if op = "gdo" then
-          let w' := groupDo st.script arg key w t
-          ({ st with w := w' }, okW w' s!"log={fmtLog (w'.log.drop n0)}")
+          let (w', r) := groupDoX st.script st.raises arg key w t
+          ({ st with w := w' }, okW w' (s!"log={fmtLog (w'.log.drop n0)}" ++ (if r then " raised" else "")))
         else if op = "gmap" then
-          let (w', rs) := groupMap st.script arg retFn key w t
-          let r := ";".intercalate (rs.map fun (k, l) => s!"{k}:{joinNat "." l}")
-          ({ st with w := w' }, okW w' s!"log={fmtLog (w'.log.drop n0)} res={r}")
+          match groupMapX st.script st.raises arg retFn key w t with
+          | (w', none) => ({ st with w := w' }, okW w' s!"log={fmtLog (w'.log.drop n0)} raised")
+          | (w', some rs) =>
+            let r := ";".intercalate (rs.map fun (k, l) => s!"{k}:{joinNat "." l}")
+            ({ st with w := w' }, okW w' s!"log={fmtLog (w'.log.drop n0)} res={r}")
         else bad
     | _, _, _ => bad
   | _ => bad
